@@ -2,7 +2,7 @@ package main
 
 // C15 correspondence leg `c15.members`: a class graph (serialised in the case line, see ocaml/c15_run.ml for the
 // format) is rendered to annotation comments in the Lua files of a temporary workspace; the REAL server answers
-// completion after `v.` / `v[1].` / `v.zqk.` / loop variables and go-to-definition on `d.<member>`.
+// completion after `v.` / `v[1].` / `v.zqk.` / `d.<member>.` / loop variables and go-to-definition on `d.<member>`.
 // The server runs in a child process (re-exec of this binary, leg `c15.child`): a fatal stack overflow cannot be
 // recovered, and every server leaks a telemetry socket, so a child is retired after a number of cases.
 
@@ -401,6 +401,13 @@ func c15Case(line string) string {
 		addProbe("IV", "for zqc, zqd in ipairs(v) do print(zqd.zq5) end", "zqd.", 0)
 		next++
 	}
+	if strings.Contains(q, "F") {
+		// a two-step prefix through a member: completion after `d.f<k>.` for every k of the universe
+		for _, k := range univ {
+			addProbe("F", "print(d.f"+strconv.Itoa(k)+".zq6)", "d.f"+strconv.Itoa(k)+".", k)
+			next++
+		}
+	}
 
 	// ---- write the workspace
 	root, err := ioutil.TempDir("", "c15w-")
@@ -441,7 +448,22 @@ func c15Case(line string) string {
 
 	parts := []string{}
 	dparts := []string{}
+	fparts := []string{}
 	for _, p := range probes {
+		if p.kind == "F" {
+			ls, err := srv.complete(uri, p.line, p.ch)
+			if err != nil {
+				return "ERR completion " + err.Error()
+			}
+			name := "f" + strconv.Itoa(p.key)
+			if declCount[p.key] >= 2 {
+				// several ---@field lines of that name: which one the step selects is not specified
+				fparts = append(fparts, name+":*")
+			} else {
+				fparts = append(fparts, name+":"+c15Labels(ls))
+			}
+			continue
+		}
 		if p.kind == "D" {
 			locs, err := srv.define(uri, p.line, p.ch)
 			if err != nil {
@@ -484,6 +506,13 @@ func c15Case(line string) string {
 			idx++
 		}
 		parts = append(parts[:idx], append([]string{"D=" + ds}, parts[idx:]...)...)
+	}
+	if strings.Contains(q, "F") {
+		fs := "-"
+		if len(fparts) > 0 {
+			fs = strings.Join(fparts, ";")
+		}
+		parts = append(parts, "F="+fs)
 	}
 	return strings.Join(parts, " ")
 }
